@@ -72,7 +72,7 @@ func VerifC16Gate() {
 	}
 	vAssert(!done || (authorised && v >= 15004 && v < cur), "C16/update-completes-only-with-the-required-majority-and-a-supported-older-version")
 	vAssert(done || !(authorised && v >= lo && v < cur), "C16/update-from-a-supported-version-completes-with-the-required-majority")
-	vCoverIf(done, "update-completed")
+	vRequire(done, "update-completed")
 	vCoverIf(!done && authorised, "update-refused-for-its-version")
 	if !done {
 		vAssert(!vEffects(), "C16/refused-update-changes-nothing")
